@@ -4,7 +4,6 @@ import (
 	"bytes"
 	"runtime"
 	"strconv"
-	"sync/atomic"
 	"syscall"
 	"time"
 )
@@ -29,11 +28,24 @@ type Snapshot struct {
 
 var snapBuf = make([]byte, 1<<20)
 
-// Progress is bumped by the harness whenever the program under test does something
+// progress is bumped by the harness whenever the program under test does something
 // observable (passes a hook site, active or not; evaluates a point through a wrapper;
 // hands a batch to a tap). The livelock detector only speaks of a livelock when the
 // counter stands still for the whole observation window.
-var Progress atomic.Uint64
+//
+// It is a plain word written without synchronisation from //go:norace functions, on
+// purpose: an atomic counter touched by every goroutine at every hook would be a
+// happens-before edge between all of them, and the race detector would stop seeing the
+// races of the program under test. Lost increments do not matter (only "did it move").
+var progress uint64
+
+// Bump records progress of the program under test.
+//
+//go:norace
+func Bump() { progress++ }
+
+//go:norace
+func progressNow() uint64 { return progress }
 
 // stable wait states: a goroutine in one of these cannot become runnable
 // unless another goroutine acts (there are no timers, network pollers or
@@ -188,14 +200,19 @@ func (s *Sim) waitQuiescent() (Snapshot, bool) {
 			// nothing has parked or blocked for a long time: is a goroutine of
 			// the program under test spinning? (checked again every StallAfter)
 			nextStallCheck = time.Now().Add(s.StallAfter)
-			if snap, spinning := s.detectSpin(time.Since(t0)); spinning {
+			if snap, spinning := s.detectSpin(time.Since(t0)); spinning && snap.Why == "sleep-retry" {
+				// asleep in the same library function for SleepBound: a retry loop that
+				// never gives up (it burns no processor time: the rule below does not apply)
+				snap.Why = "livelock"
+				return snap, false
+			} else if spinning {
 				// A long computation inside one library call looks the same from outside.
 				// What tells them apart is how much processor time goes by without any
 				// progress (processor time, not wall-clock time: a loaded machine
 				// stretches the latter only): the verdict is given once the process has
 				// burned SpinCPU of it in this state.
 				cpuNow := processCPU()
-				prog := Progress.Load()
+				prog := progressNow()
 				if !spinArmed || prog != spinProgress {
 					spinArmed, spinProgress, spinCPU0 = true, prog, cpuNow
 				}
@@ -264,7 +281,7 @@ func creatorChain() []uint64 {
 func (s *Sim) detectSpin(stalled time.Duration) (Snapshot, bool) {
 	const samples = 10
 	const gap = 500 * time.Millisecond
-	p0 := Progress.Load()
+	p0 := progressNow()
 	var ru0, ru1 syscall.Rusage
 	syscall.Getrusage(syscall.RUSAGE_SELF, &ru0)
 	w0 := time.Now()
@@ -323,7 +340,7 @@ func (s *Sim) detectSpin(stalled time.Duration) (Snapshot, bool) {
 		}
 		time.Sleep(gap)
 	}
-	if Progress.Load() != p0 {
+	if progressNow() != p0 {
 		// the program under test passed hook sites, evaluated points or delivered output
 		// during the window: a long computation, not a loop that goes nowhere
 		return last, false
@@ -345,6 +362,7 @@ func (s *Sim) detectSpin(stalled time.Duration) (Snapshot, bool) {
 	if stalled >= s.SleepBound && s.SleepBound > 0 {
 		for _, c := range sleepers {
 			if c == samples {
+				last.Why = "sleep-retry"
 				return last, true
 			}
 		}
